@@ -1,10 +1,11 @@
 (** Executable side of the round-trip theorem (Proofs/RoundTripProofs.v), kind RT.  For every block of a loaded document
     that meets the theorem's condition [confb] it evaluates
-      - the lexical half, which is not proved: the tokenizer cuts the text the writer produces for the block into exactly
-        the tokens [wtoks] (types and texts);
+      - the lexical half (proved in Proofs/RoundTripTextProofs.v under the additional condition that every written token text
+        is a well-formed token of its type, [token_textb], which is counted here): the tokenizer cuts the text the writer
+        produces for the block into exactly the tokens [wtoks] (types and texts);
       - the statement of the theorem itself on these tokens (a sanity check of the definitions on real data): the parser
         rebuilds [reorder] of the block up to layout and stops behind it.
-    case: as LOAD ( text strict _ _ floattable ... );  answer ( sOK blocks conforming lexical_mismatches parse_mismatches ( s<type>* ) ) *)
+    case: as LOAD ( text strict _ _ floattable ... );  answer ( sOK blocks conforming lexical_mismatches parse_mismatches ( s<type>* ) blocks_with_wellformed_token_texts ) *)
 From Coq Require Import Ascii String List Bool NArith ZArith.
 From A2L Require Import Base.Sx Text.Escape Text.IntText Lex.Tokenizer Gram.Spec A2ml.Types Gram.PState Gram.Parser Gram.Writer
   Gram.TokWriter Gen.SpecShipped Gen.WriterShipped Run.RunLoad.
@@ -40,7 +41,7 @@ Fixpoint subnodes (fuel : nat) (v : value) : list value :=
 Definition node_name (v : value) : string := match v with VNode ty _ _ _ _ => ty | _ => "" end.
 
 (* the two evaluations for one block; None: the block does not meet the condition *)
-Definition rt_block (tab : list fentry) (fuel : nat) (x : value) : option (bool * bool) :=
+Definition rt_block (tab : list fentry) (fuel : nat) (x : value) : option (bool * bool * bool) :=
   match lookup_ty spec_shipped (node_name x) with
   | Some td =>
       if is_blockb td && confb spec_shipped posr_shipped tab fuel td x None then
@@ -62,8 +63,8 @@ Definition rt_block (tab : list fentry) (fuel : nat) (x : value) : option (bool 
                   end
               | _ => false
               end in
-            Some (lex_ok, parse_ok)
-        | _ => Some (false, false)
+            Some (lex_ok, parse_ok, forallb token_textb want)
+        | _ => Some (false, false, forallb token_textb want)
         end
       else None
   | None => None
@@ -85,10 +86,11 @@ Definition run_rt (x : sx) : sx :=
                   let res := map (fun n => (n, rt_block tab fuel n)) nodes in
                   let blocks := filter (fun n => match lookup_ty spec_shipped (node_name n) with Some td => is_blockb td | None => false end) nodes in
                   let conf := filter (fun p => match snd p with Some _ => true | None => false end) res in
-                  let lexbad := filter (fun p => match snd p with Some (false, _) => true | _ => false end) res in
-                  let parsebad := filter (fun p => match snd p with Some (_, false) => true | _ => false end) res in
+                  let lexbad := filter (fun p => match snd p with Some (false, _, _) => true | _ => false end) res in
+                  let parsebad := filter (fun p => match snd p with Some (_, false, _) => true | _ => false end) res in
+                  let textok := filter (fun p => match snd p with Some (_, _, true) => true | _ => false end) res in
                   SL [SS "OK"; sx_nat (length blocks); sx_nat (length conf); sx_nat (length lexbad); sx_nat (length parsebad);
-                      SL (map (fun p => SS (node_name (fst p))) (firstn 3 (lexbad ++ parsebad)))]
+                      SL (map (fun p => SS (node_name (fst p))) (firstn 3 (lexbad ++ parsebad))); sx_nat (length textok)]
               | _ => SL [SS "NOLOAD"]
               end
           | _ => SL [SS "NOLOAD"]
